@@ -38,20 +38,51 @@ def shape_of(v) -> str:
     return "unknown"
 
 
+SHAPE_VALUES = {
+    "int": 5, "scalar": "s", "none": None, "bytes": b"\x01\x02", "list[int]": [1, 2], "list[]": [], "list[bytes]": [b"a", b"b"], "list[scalar]": ["a"],
+    "tuple[int]": (1, 2), "dict[]": {}, "dict[int:int]": {1: 2}, "dict[int:bytes]": {1: b"x"},
+}
+
+
+def _json_native(v) -> bool:
+    if v is None or isinstance(v, (bool, int, float, str)):
+        return True
+    if isinstance(v, (list, tuple)):
+        return all(_json_native(x) for x in v)
+    if isinstance(v, dict):
+        return all(isinstance(k, (str, int, float, bool)) or k is None for k in v) and all(_json_native(x) for x in v.values())
+    return False
+
+
 def handled_shapes(loop: ast.For, m=None, fn=None) -> set[str]:
-    """Which attribute shapes the attribute-conversion loop of insert_scan_result converts to JSON-native values."""
-    ok = {"int", "scalar", "none", "list[int]", "list[]", "tuple[int]", "dict[]", "dict[int:int]", "list[scalar]"}
-    for n in ast.walk(loop):
-        if isinstance(n, ast.If):
-            t = (m.mtext(fn, n.test) if m is not None else ast.unparse(n.test)).replace("_L", "value")
-            if "isinstance(value, bytes | bytearray)" in t or "isinstance(value, (bytes, bytearray))" in t or "isinstance(value, bytes)" in t:
-                ok.add("bytes")
-            if "isinstance(value, list)" in t and "bytes" in t:
-                ok.add("list[bytes]")
-            if "isinstance(value, dict)" in t:
-                body = ast.unparse(n.body[0]) if n.body else ""
-                if "bytes_repr" in body:
-                    ok |= {"dict[int:bytes]", "dict[int:int]"}
+    """Which attribute shapes the attribute-conversion loop of insert_scan_result converts to JSON-native values: the loop body is evaluated
+    (finite-domain interpreter) for one representative value per shape; a shape is handled when the body neither raises nor leaves a
+    bytes object in the stored value."""
+    from sa import miniterp
+    if not (isinstance(loop.target, ast.Tuple) and len(loop.target.elts) == 2 and all(isinstance(t, ast.Name) for t in loop.target.elts)):
+        raise AnalysisError("attribute loop target changed")
+    av, vv = loop.target.elts[0].id, loop.target.elts[1].id
+    stores = {ast.unparse(t.value) for n in ast.walk(loop) if isinstance(n, ast.Assign) for t in n.targets if isinstance(t, ast.Subscript) and isinstance(t.value, ast.Name)}
+    if len(stores) != 1:
+        raise AnalysisError(f"attribute loop stores into {sorted(stores)}")
+    dv = stores.pop()
+
+    def oracle(call, env):
+        if ast.unparse(call.func).endswith("bytes_repr") and len(call.args) == 1:
+            x = miniterp.eval_expr(call.args[0], env, oracle)
+            if not isinstance(x, (bytes, bytearray)):
+                raise miniterp.TypeRaised("TypeError")
+            return "hex"
+        return NotImplemented
+    ok = set()
+    for shape, val in SHAPE_VALUES.items():
+        env = {av: "field", vv: val, dv: {}}
+        try:
+            miniterp.exec_body(loop.body, env, oracle)
+        except miniterp.Raised:
+            continue
+        if "field" in env[dv] and _json_native(env[dv]["field"]):
+            ok.add(shape)
     return ok
 
 
@@ -210,6 +241,28 @@ def run(m: Model, r: Report, tier: str) -> None:
             continue
         r.check(all(m.mpat(hins, w) in txt for w in want), "R5", f"{hins.qualname}#column:{cname}",
                 f"column {cname} is bound to `{txt[:100]}`; expected an expression containing {want}", loc=hins.loc)
+
+    # every dereference of the (optional) reply in the handler happens exactly when a reply exists: unanswered requests are rows too
+    from sa.util import path_condition as _pc11, truth_table as _tt11
+    rpar = "response" if "response" in hins.params() else None
+    if rpar is None:
+        raise AnalysisError(f"{hins.qualname}: response parameter not found")
+    derefs = [n for n in ast.walk(hins.node) if isinstance(n, ast.Attribute) and isinstance(n.value, ast.Name) and n.value.id == rpar]
+    bad_d = []
+    for d_ in derefs:
+        conds_ = [(t, p_) for t, p_ in _pc11(hins.node, d_) if any(isinstance(x, ast.Name) and x.id == rpar for x in ast.walk(t)) and not any(isinstance(x, ast.Call) for x in ast.walk(t))]
+        # conditional expressions guard their own body
+        for ie in ast.walk(hins.node):
+            if isinstance(ie, ast.IfExp) and any(x is d_ for x in ast.walk(ie.body)):
+                conds_.append((ie.test, True))
+            elif isinstance(ie, ast.IfExp) and any(x is d_ for x in ast.walk(ie.orelse)):
+                conds_.append((ie.test, False))
+        names_ = sorted({x.id for t, _ in conds_ for x in ast.walk(t) if isinstance(x, ast.Name)})
+        rows_ = _tt11(conds_, {n_: [None, "X"] for n_ in names_}, lambda a: all(v is not None for v in a.values())) if conds_ else ["unguarded"]
+        if rows_:
+            bad_d.append(f"line {d_.lineno}: {ast.unparse(d_)} reached on {rows_[:2]}")
+    r.check(bool(derefs) and not bad_d, "R5", f"{hins.qualname}#reply-dereferenced-iff-present", f"{bad_d[:3]}: with no reply the handler raises (the row of a timed-out request is lost, "
+            "only logged as 'Could not log messages'), with a reply its columns stay empty", loc=hins.loc)
 
     # ---------------------------------------------------------------- R6
     loops = [n for n in ast.walk(hins.node) if isinstance(n, ast.For) and ".__dict__.items()" in ast.unparse(n.iter)]
